@@ -24,6 +24,14 @@ MUTATORS = r"std::vec::Vec::(remove|truncate|clear|drain|pop|retain|retain_mut|s
 
 def run(ctx):
     fx, res = ctx.fx, ctx.res
+    # ---- R20.4b the per-character width is the width table's answer and nothing else (unicode configuration): a shortcut that
+    # returns a constant for a class of characters under-measures the wide members of that class (Hangul Jamo are alphabetic and 2 wide)
+    for cw in fx.bodies(r"^clap_builder::output::textwrap::core::ch_width$"):
+        if cw.calls_to(r"UnicodeWidthChar>?::width$|unicode_width::"):
+            e = strip_transparent(expr(cw, 0))
+            defs = cw.def_sites(0)
+            res.check(len(defs) == 1 and re.fullmatch(r"unwrap_or\(width\(ch\),0\)|unwrap_or_default\(width\(ch\)\)", e) is not None, "R20.4", "ch_width-is-table-width", cw.where(), "ch_width = UnicodeWidthChar::width(ch).unwrap_or(0)",
+                      "ch_width has %d result definitions (%s): a path that does not ask the width table decides the width of some characters" % (len(defs), e[:80]))
     lw = fx.body("clap_builder::output::textwrap::wrap_algorithms::LineWrapper::wrap")
     # ---- R20.5c (name-independent) a line break needs a position INSIDE this call: `wrap` is called once per text block of a styled line
     # without a reset in between, so a test on the wrapper's own state (self.line_width != 0) is true at the start of a block that
